@@ -421,7 +421,7 @@ def trace_chooser(names):
     return ch
 
 
-def run_under(schedule, fn, pipe_cap=1 << 30, max_steps=200000, fallback="progress", chooser=None):
+def run_under(schedule, fn, pipe_cap=1 << 30, max_steps=200000, fallback="progress", chooser=None, pass_sched=False):
     """Run fn() (a call into toasty that uses multiprocessing) under the
     scheduler.  Returns (outcome, value_or_exception, sched) with outcome in
     {"returned", "raised", "STUCK", "DEADLOCK", "STEPLIMIT"}."""
@@ -440,7 +440,7 @@ def run_under(schedule, fn, pipe_cap=1 << 30, max_steps=200000, fallback="progre
     pu.mp = fake
     try:
         try:
-            v = fn()
+            v = fn(sched) if pass_sched else fn()
             out = ("returned", v)
         except SchedAbort as e:
             out = (str(e.args[0]), None)
